@@ -928,7 +928,7 @@ fn hx(b: &[u8]) -> String {
 pub fn abuse_items(rng: &mut StdRng, server: bool, open_sid: u32, closed_sid: u32, idle_sid: u32) -> Vec<PeerStep> {
     let fr = |ty: u8, fl: u8, sid: u32, p: &[u8]| PeerStep::Frame { ty, fl, sid, hex: hx(p) };
     let u32b = |v: u32| v.to_be_bytes().to_vec();
-    let n = 56;
+    let n = 64;
     match rng.gen_range(0..n) {
         // ---- framing
         0 => vec![fr(4, 0, 0, &[0, 3, 0, 0, 0])],                       // SETTINGS length 5
@@ -987,6 +987,20 @@ pub fn abuse_items(rng: &mut StdRng, server: bool, open_sid: u32, closed_sid: u3
         52 => vec![fr(9, 0, idle_sid + 2, &[])],                        // stray CONTINUATION on idle
         53 => vec![PeerStep::Raw { hex: hx(&(0..40).map(|_| rng.gen::<u8>()).collect::<Vec<u8>>()) }], // noise
         54 => vec![PeerStep::Data { sid: open_sid, n: 70000, eos: false, pad: None }], // larger than any window / frame size
+        // ---- a malformed request on the next stream id (stream error), then frames that raced with the endpoint's RST_STREAM (legal) ...
+        56..=63 => {
+            let bad = match rng.gen_range(0..3) { 0 => ("connection", "close"), 1 => ("te", "gzip"), _ => ("upgrade", "x") };
+            let mut v = vec![PeerStep::Headers { sid: idle_sid, hid: 0, fields: vec![(bad.0.into(), bad.1.into())], eos: false, frag: 0, huff: false, status: if server { 0 } else { 200 }, req: server, method: "POST".into(), tag: idle_sid }];
+            if rng.gen_bool(0.6) { v.push(PeerStep::WaitQ); }
+            match rng.gen_range(0..4) {
+                0 => v.push(PeerStep::Data { sid: idle_sid, n: 5, eos: false, pad: None }),
+                1 => v.push(PeerStep::Wu { sid: idle_sid, inc: 10 }),
+                2 => v.push(PeerStep::Rst { sid: idle_sid, code: 8 }),
+                // ... or a second HEADERS that re-uses the identifier (trailers without END_STREAM / a new request: never a new stream)
+                _ => v.push(fr(1, 4, idle_sid, &[0x82, 0x86, 0x84])),
+            }
+            v
+        }
         _ => vec![PeerStep::Goaway { last: 0, code: pick(rng, &CODES), dbg: 3 }],
     }
 }
@@ -1006,6 +1020,11 @@ pub fn abuse_b(seed: u64) -> Scenario {
     s.io.deliver = pick(&mut rng, &["all", "all", "rand", "byte"]).to_string();
     let mut steps = vec![];
     let hdr = |sid: u32, eos: bool| PeerStep::Headers { sid, hid: 0, fields: vec![], eos, frag: 0, huff: false, status: 0, req: true, method: "POST".into(), tag: sid };
+    if rng.gen_bool(0.35) {
+        // no (or very short) memory of reset streams: late frames meet a forgotten stream
+        let c = if server { &mut s.scfg } else { &mut s.ccfg };
+        c.reset_max = Some(pick(&mut rng, &[0usize, 0, 1]));
+    }
     if server {
         // prefix: stream 1 open (body continues), stream 3 closed (request complete, answered)
         steps.push(hdr(1, false));
@@ -1171,9 +1190,26 @@ pub fn flood_bs(seed: u64) -> Scenario {
         _ => vec![SendOp::WaitQ { k: 1000 }], // never answers, holds the handles
     };
     s.srv.push(SrvProg { ops, read, note: String::new() });
-    let kind = rng.gen_range(0..14);
-    let n = if matches!(kind, 6 | 7) { pick(&mut rng, &[300usize, 2500, 6000]) } else if matches!(kind, 3 | 4 | 5 | 9) { pick(&mut rng, &[60usize, 250, 600, 1200]) } else { pick(&mut rng, &[40usize, 120, 300]) };
-    let every = pick(&mut rng, &[7usize, 50, 200]);
+    // (the refusal burst is costly to validate: one scenario in 16)
+    let kind = if seed % 16 == 5 { 14 } else if seed % 16 == 11 { 15 } else { rng.gen_range(0..14) };
+    let n = if kind == 14 { 1300 } else if kind == 15 { pick(&mut rng, &[30usize, 80]) } else if matches!(kind, 6 | 7) { pick(&mut rng, &[300usize, 2500, 6000]) } else if matches!(kind, 3 | 4 | 5 | 9) { pick(&mut rng, &[60usize, 250, 600, 1200]) } else { pick(&mut rng, &[40usize, 120, 300]) };
+    let every = if kind == 14 { 100_000 } else if kind == 15 { 1 } else { pick(&mut rng, &[7usize, 50, 200]) };
+    if kind == 15 {
+        // answered-then-reset cycles against a blocked socket: the application answers every request with a body that
+        // cannot be written, then the peer resets the stream
+        s.srv_no_accept = false;
+        s.srv_accept_budget = None;
+        s.srv[0].ops = vec![SendOp::Response { status: 200, hid: 0, eos: false }, SendOp::Data { n: 20000, eos: true }];
+        s.srv[0].read = ReadPol::default();
+    }
+    if kind == 14 {
+        // refusal burst: every slot is taken by a request the application never answers, then more than a write buffer's
+        // worth of over-limit requests arrives in one read
+        s.srv_no_accept = false;
+        s.srv_accept_budget = None;
+        s.srv[0].ops = vec![SendOp::WaitQ { k: 1000 }];
+        s.io.deliver = "all".into();
+    }
     let hdr = |sid: u32, eos: bool| PeerStep::Headers { sid, hid: 0, fields: vec![], eos, frag: 0, huff: false, status: 0, req: true, method: "POST".into(), tag: sid };
     let fr = |ty: u8, fl: u8, sid: u32, p: &[u8]| PeerStep::Frame { ty, fl, sid, hex: hx(p) };
     let mut steps = vec![];
@@ -1183,9 +1219,29 @@ pub fn flood_bs(seed: u64) -> Scenario {
     let open = sid;
     sid += 2;
     steps.push(PeerStep::WaitQ);
-    for i in 0..n {
+    if kind == 14 {
+        for _ in 0..s.scfg.max_conc.unwrap_or(1) {
+            steps.push(hdr(sid, false));
+            sid += 2;
+        }
+        steps.push(PeerStep::WaitQ);
+    }
+    if kind == 14 {
+        // one write of the peer carrying all the requests: the endpoint meets them within a single poll
+        let mut raw: Vec<u8> = vec![];
+        let block: Vec<u8> = [&[0x83u8, 0x86, 0x84, 0x01, 0x08][..], b"sim.test"].concat();
+        for _ in 0..n {
+            raw.extend_from_slice(&[0, 0, block.len() as u8, 1, if rng.gen_bool(0.5) { 5 } else { 4 }]);
+            raw.extend_from_slice(&sid.to_be_bytes());
+            raw.extend_from_slice(&block);
+            sid += 2;
+        }
+        steps.push(PeerStep::Raw { hex: hx(&raw) });
+    }
+    for i in 0..(if kind == 14 { 0 } else { n }) {
         let k = if kind == 13 { rng.gen_range(0..13) } else { kind };
         match k {
+            15 => { steps.push(hdr(sid, true)); steps.push(PeerStep::WaitQ); steps.push(PeerStep::Rst { sid, code: 8 }); sid += 2; }
             0 => { steps.push(hdr(sid, false)); steps.push(PeerStep::Rst { sid, code: 8 }); sid += 2; }          // rapid reset
             1 => { steps.push(hdr(sid, true)); sid += 2; }                                                       // complete requests, never read the answers
             2 => { steps.push(hdr(sid, false)); sid += 2; }                                                      // open without closing: beyond the limit => refused
@@ -1216,7 +1272,7 @@ pub fn flood_bs(seed: u64) -> Scenario {
     steps.push(PeerStep::WaitQ);
     s.peer = steps;
     // write back-pressure on the endpoint under attack for a part of the run
-    match rng.gen_range(0..4) {
+    match if kind == 14 { 3 } else if kind == 15 { 0 } else { rng.gen_range(0..4) } {
         0 => s.env.push(EnvStep { at: "q".into(), n: 1, op: EnvOp::Budget { ep: 1, n: Some(0) } }),
         1 => {
             s.env.push(EnvStep { at: "q".into(), n: 1, op: EnvOp::Budget { ep: 1, n: Some(0) } });
